@@ -499,8 +499,45 @@ impl<'t> Gen<'t> {
         if self.f.case && d > 0 {
             opts.push(10);
         }
+        if self.f.and_or && d > 0 && scope.rels.len() >= 2 {
+            // an OR of three or four branches, each a comparison on one
+            // relation or an AND of comparisons on two: the shape the
+            // join-filter OR rewrite and filter pushdown pick apart
+            opts.extend([11, 11]);
+        }
         let dd = d.saturating_sub(1);
         match *self.rng.pick(&opts) {
+            11 => {
+                let nb = 3 + self.rng.usize_below(2);
+                let mut branches: Vec<Expr> = Vec::new();
+                for _ in 0..nb {
+                    let nc = 1 + self.rng.usize_below(2);
+                    let mut conj: Option<Expr> = None;
+                    for _ in 0..nc {
+                        let ri = self.rng.usize_below(scope.rels.len());
+                        let cands: Vec<(String, Ty)> = scope.rels[ri].cols.iter().filter(|c| matches!(c.1, Ty::Int | Ty::Big)).cloned().collect();
+                        if cands.is_empty() {
+                            continue;
+                        }
+                        let c = cands[self.rng.usize_below(cands.len())].clone();
+                        let col = Expr::Col { rel: scope.rels[ri].alias.clone(), name: c.0.clone(), ty: c.1, style: ColStyle::Qualified };
+                        let lit = self.literal(c.1);
+                        let op = *self.rng.pick(&[BinOp::Eq, BinOp::Eq, BinOp::Lt, BinOp::Ge]);
+                        let p = Expr::Bin(op, Box::new(col), Box::new(lit));
+                        conj = Some(match conj {
+                            Some(x) => Expr::Bin(BinOp::And, Box::new(x), Box::new(p)),
+                            None => p,
+                        });
+                    }
+                    if let Some(c) = conj {
+                        branches.push(c);
+                    }
+                }
+                match branches.into_iter().reduce(|a, b| Expr::Bin(BinOp::Or, Box::new(a), Box::new(b))) {
+                    Some(e) => e,
+                    None => self.bool_expr(scope, 0, false),
+                }
+            }
             0 => {
                 let t = self.comparable_ty();
                 let t2 = self.cmp_partner_ty(t);
